@@ -1,7 +1,7 @@
 (* C14 -- Multistage RAM/disk split changes only labels and minimises disk traffic
    Property theorems only: each proof is one application of a lemma proved in Proofs/, followed by Print Assumptions. *)
 From Coq Require Import ZArith List Bool.
-From CS Require TopK AllocProofs SplitProofs AllocMin.
+From CS Require TopK AllocProofs SplitProofs AllocMin AllocGlue.
 From CS Require Import Actions NAdvance Multistage Exec Sched RunFacts Projections BasicInv MultistageRun AllocTotal TLBridge MixBridge.
 Import ListNotations.
 Open Scope Z_scope.
@@ -89,14 +89,40 @@ Proof. exact (@AllocMin.alloc_min_disk). Qed.
 Print Assumptions C14_alloc_min_disk.
 End M_C14_alloc_min_disk.
 
-(* PARTIAL: that the weights allocate_snapshots feeds into this step are the per-position access counts of the emitted stream (so that the weight on DISK is the number of DISK accesses) is not proved: correspondence (fn.allocate_snapshots) + oracle; (this lemma: the first k of a descending list maximise the sum over all k-sub-multisets) *)
-Module M_C14_weights_are_access_counts_partial.
-Import TopK.
-Theorem C14_weights_are_access_counts_partial :
-  forall L : list Z,
-         Desc L ->
-         forall M rest : list Z, Permutation.Permutation L (M ++ rest) -> sum M <= sum (firstn (length M) L).
-Proof. exact (@TopK.topk_max). Qed.
-Print Assumptions C14_weights_are_access_counts_partial.
-End M_C14_weights_are_access_counts_partial.
+(* the glue: for every configuration c with the same max_n, trajectory and number of labels as the dry-run configuration c0, the number of accesses (checkpoint writes + loads) of its stream that name storage st is lsum st (labels c) w, w = the weights allocate_snapshots computes from the dry run; (streams are taken over fuel_for N requests, as in the model of allocate_snapshots) *)
+Module M_C14_disk_accesses_are_weights.
+Import AllocGlue.
+Theorem C14_disk_accesses_are_weights :
+  forall (c c0 : Multistage.cfg) (fuel : nat) (w : list Z) (d' : Z) (st : Actions.storage),
+         Multistage.max_n c = Multistage.max_n c0 ->
+         Multistage.tr c = Multistage.tr c0 ->
+         length (Multistage.labels c) = length (Multistage.labels c0) ->
+         Forall (fun l : Actions.storage => l = Actions.RAM \/ l = Actions.DISK) (Multistage.labels c) ->
+         Forall (fun l : Actions.storage => l = Actions.RAM \/ l = Actions.DISK) (Multistage.labels c0) ->
+         Multistage.weigh (Multistage.run fuel c0 Multistage.init) (-1)
+           (repeat 0 (length (Multistage.labels c0))) = Actions.Ok (w, d') ->
+         nacc st (Multistage.run fuel c Multistage.init) = AllocMin.lsum st (Multistage.labels c) w.
+Proof. exact (@AllocGlue.disk_accesses_are_weights). Qed.
+Print Assumptions C14_disk_accesses_are_weights.
+End M_C14_disk_accesses_are_weights.
+
+(* LAST CLAUSE: the constructed MultistageCheckpointSchedule(N, ram, disk) has the fewest DISK accesses among all label vectors of the same length with at most min(ram, N-1) RAM positions (all three constructor branches) *)
+Module M_C14_min_disk_accesses.
+Import AllocGlue.
+Theorem C14_min_disk_accesses :
+  forall (N ram disk : Z) (tj : NAdvance.traj) (c c' : Multistage.cfg),
+         1 <= N ->
+         0 <= ram ->
+         0 <= disk ->
+         Multistage.construct N ram disk tj = Actions.Ok c ->
+         Multistage.max_n c' = N ->
+         Multistage.tr c' = tj ->
+         length (Multistage.labels c') = length (Multistage.labels c) ->
+         Forall (fun l : Actions.storage => l = Actions.RAM \/ l = Actions.DISK) (Multistage.labels c') ->
+         Multistage.count_st Actions.RAM (Multistage.labels c') <= Z.min ram (N - 1) ->
+         nacc Actions.DISK (Multistage.run (Multistage.fuel_for N) c Multistage.init) <=
+         nacc Actions.DISK (Multistage.run (Multistage.fuel_for N) c' Multistage.init).
+Proof. exact (@AllocGlue.multistage_min_disk). Qed.
+Print Assumptions C14_min_disk_accesses.
+End M_C14_min_disk_accesses.
 
